@@ -808,7 +808,7 @@ def pde_case(case):
 
     from mc import core
 
-    spec, fam = case["grid"], case["fam"]
+    spec = case["grid"]
     only = case.get("only")
     geo = geometry(spec)
     vb = variant_bcs(case, geo)
@@ -879,7 +879,7 @@ def pde_case(case):
     NL = 2 * sum(4 / d**2 for d in geo["dx"])
     ND = 6 * sum(1 / d for d in geo["dx"])
     progname = "+".join(case["terms"]) if case["kind"] == "single" else "two[" + ",".join(case["terms"]) + "]"
-    famsig = f"PDE|{progname}|{fam}|{case['variant']}"
+    famsig = f"PDE|{progname}|{case['variant']}"  # (the grid family is part of the message, not of the signature)
     viol, seen, n = [], set(), 0
 
     def bad(clause, label, p, t, got, exp, tol):
@@ -1043,18 +1043,19 @@ def jit_cases(grids, pgrids, seed, tier):
                                    "seed": seed, "reduced": True})
     pcases = []
     progs = [(["lap", "pow2"], "1d", "general_t"), (["lapsq", "cddx"], "1d", "ops_exact_first"),
-             (["gsq", "xc"], "1d", "ops_wild_last"), (["laplap"], "1d", "general_t"),
+             (["gsq", "xc"], "1d", "ops_wild_last"),
              (["divcgrad", "dotgrad"], "2d", "general"), (["lapsq", "fc"], "spherical-hole", "ops_var_all"),
-             (["intc", "time"], "1d", "default"), (["divgrad", "sinc"], "2d", "ops_exact_first")]
+             (["intc", "time"], "1d", "default")]
     if tier == "thorough":
+        progs += [(["laplap"], "1d", "general_t"), (["divgrad", "sinc"], "2d", "ops_exact_first")]
         progs += [([t], "2d" if i % 2 else "spherical-hole", SINGLE_VARIANTS[1 + i % 5]) for i, t in enumerate(TERM_ORDER)]
     for terms, fam, var in progs:
         c = {"kind": "single", "terms": terms, "fam": fam, "grid": pgrids[fam][1], "variant": var, "seed": seed, "reduced": True}
         if variant_bcs(c, geometry(c["grid"])) is not None:
             pcases.append(c)
-    two = [(["lap", "gsq"], "ops_exact"), (["xc", "lap"], "ops_wild_lap")]
+    two = [(["lap", "gsq"], "ops_exact")]
     if tier == "thorough":
-        two += [(["ddx", "fc"], "ops_v_all"), (["lapsq", "lapsq"], "general_t")]
+        two += [(["xc", "lap"], "ops_wild_lap"), (["ddx", "fc"], "ops_v_all"), (["lapsq", "lapsq"], "general_t")]
     for terms, var in two:
         pcases.append({"kind": "two", "terms": terms, "fam": "1d", "grid": pgrids["1d"][2], "variant": var, "seed": seed,
                        "reduced": True})
